@@ -112,7 +112,15 @@ pub trait Deserialize: DeserializeInner {
         }
         // deserialize the data structure
         let mem = unsafe { (*ptr).1.as_ref().unwrap() };
-        let s = Self::deserialize_eps(mem)?;
+        let s = match Self::deserialize_eps(mem) {
+            Ok(s) => s,
+            Err(e) => {
+                // the backend has already been moved into the (uninitialized)
+                // MemCase, which is never dropped: release it here
+                unsafe { core::ptr::drop_in_place(addr_of_mut!((*ptr).1)) };
+                return Err(e.into());
+            }
+        };
         // write the deserialized struct in the memcase
         unsafe {
             addr_of_mut!((*ptr).0).write(s);
@@ -159,7 +167,14 @@ pub trait Deserialize: DeserializeInner {
         }
         // deserialize the data structure
         let mem = unsafe { (*ptr).1.as_ref().unwrap() };
-        let s = Self::deserialize_eps(mem)?;
+        let s = match Self::deserialize_eps(mem) {
+            Ok(s) => s,
+            Err(e) => {
+                // see load_mem
+                unsafe { core::ptr::drop_in_place(addr_of_mut!((*ptr).1)) };
+                return Err(e.into());
+            }
+        };
         // write the deserialized struct in the MemCase
         unsafe {
             addr_of_mut!((*ptr).0).write(s);
@@ -203,7 +218,14 @@ pub trait Deserialize: DeserializeInner {
 
         let mmap = unsafe { (*ptr).1.as_ref().unwrap() };
         // deserialize the data structure
-        let s = Self::deserialize_eps(mmap)?;
+        let s = match Self::deserialize_eps(mmap) {
+            Ok(s) => s,
+            Err(e) => {
+                // see load_mem
+                unsafe { core::ptr::drop_in_place(addr_of_mut!((*ptr).1)) };
+                return Err(e.into());
+            }
+        };
         // write the deserialized struct in the MemCase
         unsafe {
             addr_of_mut!((*ptr).0).write(s);
